@@ -81,7 +81,7 @@ PROPS['C02'] = dict(
                 'plus ARBITRARY bytes wherever a later write touches (this covers every subset of the unsynced writes and tearing at any granularity); for every crash point recovery (select_header) reads either the old header and every byte the commit does not write is as before, '
                 'or the new header and every data write of the commit is completely on the disk; after Ok only the latter. Dropping (w3) from the hypotheses makes the proof fail (that was defect E1).',
     level_text='Every path of the real commit code (including all error exits) is proved against the trace contract; no bound on pages, sizes or history.',
-    level_note='Assumes the file/trace stand-in semantics, the tree layer frame A1/A2/INV-live, FNV (H0/H1: a half-written header slot is valid only if complete or unchanged), view locality (page views are functions of the page\'s bytes). L1 starts from a state whose newest header is a current-format header (the first commit on a legacy-format file is outside it). Known finding E2 listed.',
+    level_note='Assumes the file/trace stand-in semantics, the tree layer frame A1/A2/INV-live, FNV (H0/H1: a half-written header slot is valid only if complete or unchanged; H1 is FALSE for the first commit after a recovery from a torn header write -- known finding E14, reproduced by the bounded oracle on every run and printed as KNOWN-FINDING), view locality (page views are functions of the page\'s bytes). L1 starts from a state whose newest header is a current-format header (the first commit on a legacy-format file is outside it). Known finding E2 listed.',
     assumptions=[A_TOOLS, A_ARITH, A_FILE, A_TREE, A_FNV, A_VIEWS, A_SEQ, A_PAGEMUT],
     not_covered=['rebalance/spill/merge of the tree layer', 'that the pages a commit allocates are disjoint from the old tree is L2 (unit lemmas) + T1/F1, joined to L1 on paper', 'the first commit on a legacy-format (<= 0.10) file'],
 )
